@@ -8,12 +8,12 @@
    ReadTx(k) returns: the record found THROUGH the commit-log entry (offset, size) in the tx log.
    H is ANY hash function; no collision assumption is used. The premise 0 < c_maxactive is
    Options.Validate (MaxActiveTransactions > 0). *)
-(* The refutations of the two full statements that the code as it stands violates are in
-   coq/Hist/Refuted.v (reopen_refuted_witness, ack_refuted_witness; blroot_fixed_witness is the
-   regression witness of the BlRoot defect fixed by 2077e08): witness
-   executions evaluated with the executable SHA-256 (Coq's primitive 63-bit integers, hence not listed
-   here where every theorem must be closed under the global context), replayed on the real store by
-   the directed scripts of harness/c02 on every run (known findings). *)
+(* coq/Hist/Refuted.v holds the refutation of the one full statement that the code as it stands still
+   violates (ack_refuted_witness: a commit call of a discarded transaction acknowledged under another
+   transaction's id) and the regression witnesses of the two defects fixed meanwhile (blroot_fixed_witness:
+   2077e08; reopen_fixed_witness: 8728288), evaluated with the executable SHA-256 (Coq's primitive 63-bit
+   integers, hence not listed here where every theorem must be closed under the global context) and
+   replayed on the real store by the directed scripts of harness/c02 on every run. *)
 From V Require Import Hist.Machine Hist.Hist Hist.Aht Hist.Theorems Hist.Refuted.
 
 (* Committed ids are exactly 1..committedTxID: every id in that range reads back a record carrying
@@ -54,18 +54,15 @@ Proof. exact alh_chain_links. Qed.
 Print Assumptions C02_alh_chain.
 
 
-(* BlRoot clause of the chain, incl. close/reopen cycles (OpenWith as fixed by 2077e08: the
-   binary-linking tree is reset to the committed transactions and rebuilt from the reloaded ones):
-   a committed record with BlTxID > 0 embeds the Merkle root (RFC 6962 shape: Merkle/Ref.v) over the
-   stored Alh values of transactions 1..BlTxID as a reader gets them (`alhs s n`), or a collision of H
-   is exhibited (a record reloaded from the tx log at reopen is tied to its ancestry only through the
-   PrevAlh hash chain). H has 32-byte outputs. Premise `reopens_clean`: at every OReopen of the run the
-   commit log holds no entry beyond the committed id, i.e. the run does not go through the known
-   finding "reopen commits more" (a commit loop that stopped midway followed by close/reopen); without
-   it the reopened store counts entries whose tree leaves were never checked against them. *)
+(* BlRoot clause of the chain, for ALL executions incl. close/reopen cycles and discards (OpenWith rebuilds
+   the binary-linking tree from the reloaded transactions: 2077e08; Discard cuts the tx log and an incomplete
+   commit loop rewinds the commit log: 8728288): a committed record with BlTxID > 0 embeds the Merkle root
+   (RFC 6962 shape: Merkle/Ref.v) over the stored Alh values of transactions 1..BlTxID as a reader gets them
+   (`alhs s n`), or a collision of H is exhibited (a record reloaded from the tx log at reopen is tied to
+   its ancestry only through the PrevAlh hash chain). H has 32-byte outputs. *)
 Theorem C02_blroot :
   forall (H : bytes -> bytes) (c : cfg) (ops : list op) (k : N) (r : rec),
-  (forall x, length (H x) = 32%nat) -> 0 < c_maxactive c -> reopens_clean H (init H c) ops ->
+  (forall x, length (H x) = 32%nat) -> 0 < c_maxactive c ->
   let s := run H (init H c) ops in
   1 <= k -> k <= s_committed s -> read_tx s k = Ok r -> 0 < h_bltxid (r_hdr r) ->
   h_blroot (r_hdr r) = mth H (alhs s (h_bltxid (r_hdr r))) \/ Collision H.
@@ -97,9 +94,8 @@ Print Assumptions C02_state_is_last.
 
 (* Byte-level statement behind "a racing precommit overwrites an earlier tx": whatever a step writes
    into the tx log (a write w that was not there before) starts at or above the END of every record
-   that is committed, precommitted (held by cLogBuf) or referenced by a commit-log entry left behind
-   by a commit loop that stopped midway — incl. after Discard (which does not rewind
-   precommittedTxLogSize), after failed precommits that had already appended bytes, after reopen. *)
+   that is committed or precommitted (held by cLogBuf) — incl. after Discard (which rewinds
+   precommittedTxLogSize to the end of the last kept record), after failed precommits that had already appended bytes, after reopen. *)
 Theorem C02_txlog_extents_disjoint :
   forall (H : bytes -> bytes) (c : cfg) (ops : list op) (o : op) (w x : wr), 0 < c_maxactive c ->
   let s := run H (init H c) ops in
@@ -107,28 +103,28 @@ Theorem C02_txlog_extents_disjoint :
 Proof. exact txlog_extents_disjoint. Qed.
 Print Assumptions C02_txlog_extents_disjoint.
 
-(* DiscardPrecommittedTxsSince, in ANY state: committed id and Alh, commit log and tx log are left
-   untouched, and a request to discard a committed id is refused. *)
+(* DiscardPrecommittedTxsSince: committed id and Alh and the commit log are left untouched, every
+   committed transaction reads back identically although the tx log is cut at the last kept transaction,
+   and a request to discard a committed id is refused. *)
 Theorem C02_discard_respects_committed :
-  forall (s : state) (n : N),
+  forall (H : bytes -> bytes) (c : cfg) (ops : list op) (n : N), 0 < c_maxactive c ->
+  let s := run H (init H c) ops in
   let s' := fst (discard s n) in
   s_committed s' = s_committed s /\ committed_state s' = committed_state s /\
-  s_clog s' = s_clog s /\ s_txlog s' = s_txlog s /\
+  s_clog s' = s_clog s /\
+  (forall k, 1 <= k -> k <= s_committed s -> read_tx s' k = read_tx s k) /\
   (n <= s_committed s -> exists e, snd (discard s n) = Err e).
 Proof. exact discard_respects_committed. Qed.
 Print Assumptions C02_discard_respects_committed.
 
-(* Clean close/reopen: every transaction committed before reads back identically after.
-   FULL statement (... and the committed id is the same) is REFUTED, see Hist/Refuted.v
-   reopen_refuted_witness (a commit loop that stopped midway leaves commit-log entries that Close flushes:
-   the reopened store reports them committed, even for transactions that were discarded): _partial form. *)
-Theorem C02_reopen_same_history_partial :
+(* Clean close/reopen: the reported state (committed id and Alh) is the same and every committed
+   transaction reads back identically (full statement since 8728288: the commit log never holds entries
+   beyond the committed id, so a restart cannot commit anything). *)
+Theorem C02_reopen_same_history :
   forall (H : bytes -> bytes) (c : cfg) (ops : list op), 0 < c_maxactive c ->
   let s := run H (init H c) ops in
   let s' := fst (step H s OReopen) in
-  s_committed s <= s_committed s' /\
+  committed_state s' = committed_state s /\
   forall k, 1 <= k -> k <= s_committed s -> read_tx s' k = read_tx s k.
-Proof. exact reopen_same_history_partial. Qed.
-Print Assumptions C02_reopen_same_history_partial.
-
-
+Proof. exact reopen_same_history. Qed.
+Print Assumptions C02_reopen_same_history.
